@@ -1117,6 +1117,8 @@ def _get_to_number_args(e: exp.ToNumber) -> tuple[exp.Expression | None, exp.Exp
 
 def _to_decimal(expression: exp.Expression, cast_node: type[exp.Cast]) -> exp.Expression:
     expressions: list[exp.Expression] = expression.expressions
+    # transform isn't applied to the children of a replaced node, so do that here for nested calls
+    nested = to_decimal if cast_node is exp.Cast else try_to_decimal
 
     if len(expressions) > 1 and expressions[1].is_string:
         # see https://docs.snowflake.com/en/sql-reference/functions/to_decimal#arguments
@@ -1126,7 +1128,7 @@ def _to_decimal(expression: exp.Expression, cast_node: type[exp.Cast]) -> exp.Ex
     scale = expressions[2] if len(expressions) > 2 else exp.Literal(this="0", is_string=False)
 
     return cast_node(
-        this=expressions[0],
+        this=expressions[0].transform(nested),
         to=exp.DataType(this=exp.DataType.Type.DECIMAL, expressions=[precision, scale], nested=False, prefix=False),
     )
 
@@ -1148,7 +1150,8 @@ def to_decimal(expression: exp.Expression) -> exp.Expression:
             scale = exp.Literal(this="0", is_string=False)
 
         return exp.Cast(
-            this=expression.this,
+            # transform isn't applied to the children of a replaced node, so do that here for nested calls
+            this=expression.this.transform(to_decimal),
             to=exp.DataType(this=exp.DataType.Type.DECIMAL, expressions=[precision, scale], nested=False, prefix=False),
         )
 
@@ -1201,7 +1204,8 @@ def to_timestamp_ntz(expression: exp.Expression) -> exp.Expression:
         isinstance(expression.this, str) and expression.this.upper() == "TO_TIMESTAMP_NTZ"
     ):
         return exp.StrToTime(
-            this=expression.expressions[0],
+            # transform isn't applied to the children of a replaced node, so do that here for nested calls
+            this=expression.expressions[0].transform(to_timestamp_ntz),
             format=exp.Literal(this="%Y-%m-%d %H:%M:%S", is_string=True),
         )
     return expression
@@ -1487,7 +1491,8 @@ def sha256(expression: exp.Expression) -> exp.Expression:
     """
 
     if isinstance(expression, exp.SHA2) and expression.args.get("length", exp.Literal.number(256)).this == "256":
-        return SHA256(this=expression.this)
+        # transform isn't applied to the children of a replaced node, so do that here for nested calls
+        return SHA256(this=expression.this.transform(sha256))
     elif (
         isinstance(expression, exp.Anonymous)
         and expression.this.upper() == "SHA2_HEX"
@@ -1496,7 +1501,7 @@ def sha256(expression: exp.Expression) -> exp.Expression:
             or (len(expression.expressions) == 2 and expression.expressions[1].this == "256")
         )
     ):
-        return SHA256(this=expression.expressions[0])
+        return SHA256(this=expression.expressions[0].transform(sha256))
     elif (
         isinstance(expression, exp.Anonymous)
         and expression.this.upper() == "SHA2_BINARY"
@@ -1505,6 +1510,6 @@ def sha256(expression: exp.Expression) -> exp.Expression:
             or (len(expression.expressions) == 2 and expression.expressions[1].this == "256")
         )
     ):
-        return exp.Unhex(this=SHA256(this=expression.expressions[0]))
+        return exp.Unhex(this=SHA256(this=expression.expressions[0].transform(sha256)))
 
     return expression
